@@ -48,7 +48,9 @@ def gen_specs(rng, n, quick):
         spec = {"seed": rng.randrange(1 << 40), "dim": dim, "family": family, "npts": npts, "ratio": ratio}
         if rng.random() < 0.3:
             # the same point set far from the origin (the properties are translation invariant)
-            spec["offset"] = [rng.choice([0.0, 1024.0, -256.0, 37.0, 1000.0]) for _ in range(dim)]
+            # (a multi-point start is triangulated by SciPy/Qhull, which loses its own precision at 1e5..1e6: moderate offsets there)
+            offs = [0.0, 1024.0, -256.0, 37.0, 1000.0] + ([] if family == "random_multi" else [131072.0, -1048576.0])
+            spec["offset"] = [rng.choice(offs) for _ in range(dim)]
         specs.append(spec)
     return specs
 
